@@ -12,6 +12,8 @@ def plan(tier, seed):
     if tier == 'quick':
         blocks = [dict(n=3, m=2, labels='ints', schemes='all', histories=True), dict(n=3, m=3, labels='ints', schemes='six_t7', per=60),
                   dict(n=4, m=2, labels='ints', schemes='one', per=100, histories=True),
+                  dict(n=3, m=3, labels='ints', schemes='one', per=200, histories='empties'),
+                  dict(n=4, m=3, labels='ints', schemes='one', per=20000, maxk=256, histories='empties'),
                   dict(n=4, m=2, labels='ints', schemes='two_t', per=100), dict(n=3, m=2, labels=alt, schemes='four')]
         cons_n = [1, 2, 3, 4]
     else:
@@ -126,11 +128,13 @@ def check_partition(ctx, ds, lname, n, s, dataset_obj=None, origin=None):
 HIST_SCHEMES = [spaces.UNIFYING, spaces.B5LTT5, spaces.EXTENDED]
 
 
-def histories(ctx, ds0, lname, n):
+def histories(ctx, ds0, lname, n, only_empties=False):
     """partition -> mutate the dataset object in place -> partition again on the SAME object."""
     from ..lib import labels_for, mutation_histories, prepare_mutated, mk_scheme
     labels = labels_for(lname, n)
     for what, after in mutation_histories(ds0):
+        if only_empties and what != 'empties':
+            continue
         for s in HIST_SCHEMES:
             def warm(dd):
                 _lib['OP'].parfront_partition(dd, mk_scheme(s))
@@ -143,10 +147,15 @@ def histories(ctx, ds0, lname, n):
 def run_partition(ctx, sh):
     for index, ds in spaces.ds_iter_strided(sh['n'], sh['m'], sh['shard'], sh['nshards']):
         ctx.cases += 1
+        if sh.get('histories') == 'empties':
+            # this block only contributes histories: datasets with an empty ranking, which is then removed in place
+            if any(len(r) == 0 for r in ds):
+                histories(ctx, ds, sh['labels'], sh['n'], only_empties=True)
+            continue
         for s in cross.SCHEME_KINDS[sh['schemes']]:
             check_partition(ctx, ds, sh['labels'], sh['n'], s)
         if sh.get('histories'):
-            histories(ctx, ds, sh['labels'], sh['n'])
+            histories(ctx, ds, sh['labels'], sh['n'], only_empties=(sh['histories'] == 'empties'))
     ctx.sample({'kind': 'partition', 'block': [sh['n'], sh['m']], 'labels': sh['labels'], 'schemes': sh['schemes']})
 
 
